@@ -235,3 +235,18 @@ CHECKS["C11"].update(
     note=CHECKS["C11"]["note"].replace("Textual numbers, extend_str and numbers appended to textual values are uncovered.",
                                         "Textual numbers, extend_str and numbers appended to textual values are covered only by the native unit C11.text "
                                         "(bounded, never counted as proved)."))
+CHECKS["C26"].update(
+    technique="Verus contracts (requires/ensures + representation invariant) on the extracted text of the synchronous P-DATA writer and reader; "
+              "native message-level enumerations of the reader and, over a loopback association inside the process, of the writer (stand-ins)")
+CHECKS["C09"].update(
+    technique=CHECKS["C09"]["technique"].replace("bounded native enumerations of written tables and of attribute operations (stand-ins)",
+                                                   "bounded native enumerations of written tables, of attribute operations and of preamble handling (stand-ins)"),
+    note=CHECKS["C09"]["note"].replace("preamble handling is uncovered.", "preamble handling is covered only by the native unit C09.preamble."))
+CHECKS["C15"].update(
+    technique=CHECKS["C15"]["technique"] + "; exhaustive native enumeration of all 2^32 tags, all keywords and all SOP class rows against the text of the generated tables (stand-in)")
+CHECKS["C01"].update(
+    technique=CHECKS["C01"]["technique"].replace("bounded native enumeration at element level (stand-in)", "bounded native enumerations at element and data-set level (stand-ins)"),
+    note=CHECKS["C01"]["note"].replace("Whole-data-set round trip (tokens, sequences, objects), non-default character sets and pixel data are uncovered. Element-level write-then-read is covered only by the native unit C01.elements (bounded stand-in, never counted as proved), which exposed defect S16.",
+                                        "Element-level and whole-data-set round trips (nested sequences, encapsulated pixel data, deflate) are covered only by the native units C01.elements / C01.objects (bounded stand-ins, never counted as proved), which exposed defects S16 and S17; non-default character sets are uncovered."))
+CHECKS["C04"].update(
+    note=CHECKS["C04"]["note"].replace("the token-level writer and file writing are uncovered.", "the token-level writer (delimiters, defined lengths) is covered only by the native unit C04.streams (independent structural reader over a few objects); file writing is uncovered."))
